@@ -124,11 +124,15 @@ def _gather_orders(ctx, rep, n):
     immune sources mixed)."""
     from harness import calcdirect as CD
     rnd = ctx.sub_rnd('gather-order')
-    for _ in range(n):
-        case = CD.gen_case(rnd, rnd.random() < 0.5)
+    # corpus: minimised past failures run first (D22: an exact two-digit rounding tie, -11.475)
+    corpus = [{'base': 10, 'cap': None, 'hig': 1, 'limited': 1, 'stackable': 0,
+               'mods': [(9, 50, 1, 1, None, False), (5, 0.1, 1, 1, None, False), (1, 100, 0.3, 2, 1, True),
+                        (4, 50, 0.3, 1, None, True), (5, 50, 1, 1, None, False), (9, 50, 1, 1, None, True)]}]
+    for k in range(n + len(corpus)):
+        case = corpus[k] if k < len(corpus) else CD.gen_case(rnd, rnd.random() < 0.5)
         ref = CD.run_case(case)
         rep.case(kind='gather-order', sig=('gather', repr(case)) if len(case['mods']) >= 2 else None)
-        for _k in range(3):
+        for _k in range(12 if k < len(corpus) else 3):
             c2 = dict(case, mods=list(case['mods']))
             rnd.shuffle(c2['mods'])
             got = CD.run_case(c2)
